@@ -210,7 +210,8 @@ class MatchScenario(NetScenario):
         done = [r for r in st.reqs if r.obj is not None and r.obj.response.done() and r.token is not None]
         if live:
             r = live[0]
-            for kind in ("tok+1:CON", "tok+1:NON", "tok-1:CON", "ip:CON", "ip:NON", "ip:ACK", "port:CON", "port:NON", "port:ACK"):
+            # (CON0: a confirmable forgery under message ID 0, the one value of the ID space that is falsy)
+            for kind in ("tok+1:CON", "tok+1:NON", "tok-1:CON", "tok+1:CON0", "ip:CON", "ip:NON", "ip:ACK", "port:CON", "port:NON", "port:ACK"):
                 out.append(("forge:%s:%s" % (r.name, kind), 1))
             if r.mtype == "CON" and r.mid is not None:   # a held-back request has no message ID to reset yet
                 out.append(("rst:%s" % r.name, 1))
@@ -258,8 +259,8 @@ class MatchScenario(NetScenario):
                 src = EVIL
             elif how == "port":
                 src = (src[0], src[1] + 1)
-            t = {"CON": rc.CON, "NON": rc.NON, "ACK": rc.ACK}[typ]
-            mid = r.mid if (typ == "ACK" and r.mid is not None) else 0x6666
+            t = {"CON": rc.CON, "NON": rc.NON, "ACK": rc.ACK, "CON0": rc.CON}[typ]
+            mid = r.mid if (typ == "ACK" and r.mid is not None) else 0 if typ == "CON0" else 0x6666
             w.inject(src, CLI, rc.encode((t, 69, mid, tok, [], b"FORGED")))
             self.expect_unmatched(st, before, nsent, src, t, mid, label)
         elif kind == "replay":
